@@ -1,6 +1,6 @@
 import SteelVerif.C12.Props
 open SteelVerif.C12
-#print axioms read_total
+#print axioms read_total_partial
 #print axioms spans_in_bounds
 #print axioms tokens_in_order
 #print axioms read_write_partial
